@@ -207,6 +207,7 @@ macro_rules! gen_pawn_other {
                 ab::assume_at_most_16(&b);
                 ab::assume_no_backrank_pawns(&b);
                 ab::assume_ep_consistent(&b);
+                ab::assume_castling_normal(&b);
                 let w = any_w(rs::code($white, $piece));
                 let rw = rs::rmove(w);
                 let mut sink = WSink::new(w);
